@@ -1,6 +1,7 @@
 (* C10 line protocol.  Trusted: s-expression reader, hex/int<->N conversion, printing.
    request  :=  expr
    expr     :=  '(' 'C' idx arg* ')'          call entry point idx (index table Gen/PropLib.index.json)
+             |  '(' 'N' 'P'hex n l ')'        conjunction_implies_nth(term, n, l)  (Lib/NthDef.v)
    arg      :=  'P'hex                        a pattern argument
              |  '(' 'S' (id'='hex)* ')'       an instantiation map (insertion order)
              |  'V'n                          an element variable (EVar n)
@@ -95,6 +96,12 @@ let rec parse_expr toks : thunk * string list =
       (match dispatch (n_of_int i) a with
        | Some t -> (t, rest)
        | None -> raise Bad)
+  | "(" :: "N" :: tok :: n :: l :: ")" :: rest when String.length tok >= 1 && tok.[0] = 'P' ->
+      (* hand-modelled Tautology.conjunction_implies_nth(term, n, l) *)
+      let rec nat_of_int i = if i <= 0 then O else S (nat_of_int (i - 1)) in
+      let ni = int_of_string n and li = int_of_string l in
+      if ni < 0 || li < 0 || li > 64 then (None, rest)
+      else (conj_nth (pat_of (String.sub tok 1 (String.length tok - 1))) (nat_of_int ni) (nat_of_int li), rest)
   | "(" :: "A" :: h :: ")" :: rest ->
       let p = pat_of h in
       assumed := p :: !assumed;
